@@ -232,6 +232,34 @@ func c19F64Gen(r *Rand, tier string) []string {
 		u := Pick(r, []string{"-[0]", "![0]", "abs([0])", "sqrt([0])", "floor([0])", "ceil([0])", "round([0])",
 			"sqrt(abs([0]))", "round([0]/[1])", "floor([0])%ceil([1])", "-abs(-[0])", "sqrt([0]*[0])", "floor([0]+0.5)", "ceil(-[0])", "![0]+![1]"})
 		out = append(out, c19fMath(u, a, b))
+		// the logarithms (math.Log = log_amd64.s, Log10, Log2: modelled operation by operation since round 4b):
+		// arbitrary patterns, subnormals (the assembly does not normalise them), the rescaling boundary
+		// sqrt(2)/2 and its neighbours at every exponent, exact powers of two and of ten
+		if i%2 == 0 {
+			x := a
+			switch r.Intn(8) {
+			case 0: // a subnormal
+				x = uint64(r.Intn(1<<26))<<26 | uint64(r.Intn(1<<26))
+				if r.Bool() {
+					x >>= uint(r.Intn(52))
+				}
+			case 1: // sqrt(2)/2 · 2^k and neighbours
+				x = 0x3fe6a09e667f3bcd&(1<<52-1) | uint64(r.Range(1, 2046))<<52
+				x += uint64(r.Range(-2, 2))
+			case 2: // 2^k
+				x = uint64(r.Range(0, 2046)) << 52
+				if x == 0 {
+					x = 1 << uint(r.Intn(52))
+				}
+			case 3: // 10^k, k·ln2-ish integers
+				x = math.Float64bits(math.Pow(10, float64(r.Range(-300, 300))))
+			case 4: // positive, moderate
+				x = a &^ (1 << 63)
+			}
+			l := Pick(r, []string{"log([0])", "log10([0])", "log2([0])", "log([0])", "log10([0])", "log2([0])",
+				"log(abs([0]))", "log2([0])+log2([1])", "log10([0])*2", "floor(log10([0]))", "log2(sqrt([0]))", "log([0])/log([1])", "round(log2([0]))==log2([0])"})
+			out = append(out, c19fMath(l, x, b&^(1<<63)))
+		}
 		// literals
 		if i%2 == 0 {
 			l := c19fLiteral(r)
@@ -248,6 +276,24 @@ func c19F64Gen(r *Rand, tier string) []string {
 			if i%8 == 0 {
 				out = append(out, "gram "+HexS(l))
 			}
+		}
+		// an int64 of any size as constant (ParseInt, float64(n)) and as capture text (ParseFloat): the same value
+		// (int_constant_equals_bound_text); also beyond int64 and with a leading '-'
+		if i%4 == 3 {
+			n := int64(uint64(r.Intn(1<<32))<<32|uint64(r.Intn(1<<32))) >> uint(r.Intn(64))
+			if n < 0 {
+				n = -(n + 1)
+			}
+			txt := strconv.FormatInt(n, 10)
+			switch r.Intn(6) {
+			case 0:
+				txt = strconv.FormatUint(uint64(n)+uint64(r.Intn(3))<<62+uint64(r.Intn(1<<30)), 10) // up to 2^64
+			case 1:
+				txt = Pick(r, []string{"9007199254740993", "9007199254740992", "9223372036854775807", "9223372036854775808", "18446744073709551615",
+					"18446744073709551616", "4611686018427387905", "36028797018963969", "1" + strings.Repeat("0", r.Intn(40))})
+			}
+			tmpl := Pick(r, []string{"{! [0] == " + txt + "}", "{! [0] - " + txt + "}", "{! x == " + txt + "}", "{! [1] == -" + txt + "}", "{! [1] + " + txt + "}"})
+			out = append(out, ExprCase(r.Bool(), tmpl, []string{txt, "-" + txt}, []string{"x", txt}))
 		}
 		// capture text → ParseFloat, result → FormatFloat
 		if i%2 == 1 {
